@@ -14,6 +14,7 @@ mod c16;
 mod c17;
 mod c18;
 mod c19;
+mod c20;
 mod eng;
 mod probe;
 mod gen;
@@ -30,6 +31,11 @@ fn main() {
         std::process::exit(2);
     }
     let prop = args[1].clone();
+    if prop == "c20-child" {
+        std::panic::set_hook(Box::new(|_| {}));
+        c20::child(&args[2]);
+        return;
+    }
     let mut seed: u64 = 1;
     let mut tier = "quick".to_string();
     let mut outdir = PathBuf::from("out");
@@ -74,6 +80,7 @@ fn main() {
         "C15" => c15::run(&mut rng, &mut out, &tier),
         "C19" => c19::run(&mut rng, &mut out, &tier),
         "C03" => c03::run(&mut rng, &mut out, &tier),
+        "C20" => c20::run(&mut rng, &mut out, &tier),
         "probe" => probe::run(),
         "C01" => c01::run(&mut rng, &mut out, &tier),
         _ => {
